@@ -17,9 +17,11 @@ class CFG:
             d[l].append(i)
         return d
 
-    def text(self, pkg_h):
-        tokpkg = pkg_h[:-2] + "/token" if pkg_h.endswith("/h") else None
+    def text(self, pkg_h, pure=False):
+        """pure=True: actions build []interface{}{p, kids...} values without any helper package (no shared state)"""
         out = ['<< import ( "%s" ; "%s/token" ) ; var _ = token.EOF ; var _ = h.Reset >>' % (pkg_h, pkg_h[:-2]), ""]
+        if pure:
+            out = []
         d = self.by_lhs()
         order = []
         for (l, b, k, a) in self.prods:
@@ -47,7 +49,9 @@ class CFG:
                         sym = (["error"] + b)[j] if k == "error" else b[j]
                         is_term = sym not in self.nts and sym != "error"
                         args.append("$T%d" % j if (a == "T" and is_term) else "$%d" % j)
-                    if a == "NC":
+                    if pure:
+                        s += " << []interface{}{%d%s}, nil >>" % (pnum, "".join(", " + x.replace("$T", "$") for x in args))
+                    elif a == "NC":
                         s += " << h.NC(%d, $Context%s) >>" % (pnum, "".join(", " + x for x in args))
                     else:
                         s += " << h.N(%d%s) >>" % (pnum, "".join(", " + x for x in args))
@@ -324,9 +328,9 @@ def lex_part(g):
     return "\n".join(out) + "\n"
 
 
-def full_text(g, pkg_h):
+def full_text(g, pkg_h, pure=False):
     """lexical part + syntax part (header must come first in the syntax part)"""
-    return lex_part(g) + "\n" + g.text(pkg_h)
+    return lex_part(g) + "\n" + g.text(pkg_h, pure=pure)
 
 
 def source_of(tokens):
